@@ -47,6 +47,10 @@ impl VNode {
     /// `via`: how the handle was obtained (for the signature).
     pub fn check_live(&self, expect_id: Option<u32>, prop: &str, via: &str) {
         mon::eval("deref-cookie");
+        // a dead object behind a handle returned by an upgrade refutes C05 and, the handle being an
+        // Rc / a Snapshot like any other, C01 / C02 as well: attribute it to the property under check
+        let cp = mon::check_prop();
+        let prop = if prop == "C05" && (cp == "C01" || cp == "C02") { cp } else { prop };
         let c = self.cookie.load(SeqCst);
         if c != LIVE {
             mon::violation(
